@@ -12,6 +12,7 @@
      (a) EvStart a      =>  the durable image shows a as (Running, n), n = number of earlier invocations of a
                             in this run (a run of a begins with the write (Running, 0) that changes its cell:
                             once for a sequence action, at every re-run of its group for a check action);
+                            and the sequence of a sequence action is durably Running;
      (b) each attempt's result is durable before the next attempt or the next action begins:
                             EvStart a needs that no earlier invocation of a is still inside the plugin and that
                             no returned result of a is un-recorded; EvStart (ASeq b s i) needs the same of every
@@ -90,6 +91,13 @@ Definition m0 : mst := {| m_img := []; m_reason := FRUnknown; m_acts := []; m_re
 
 Definition is_some {A} (x : option A) : bool := match x with Some _ => true | None => false end.
 
+(* the sequence of a sequence action is durably Running (check groups are never durably Running) *)
+Definition encl_ok (im : dimg) (a : aref) : bool :=
+  match a with
+  | ASeq b s _ => status_eqb (ist im (OSeq b s)) Running
+  | AChk _ _ _ => true
+  end.
+
 (* ---- EvStart a : code 0 = fine ---- *)
 Definition start_code (m : mst) (a : aref) : nat :=
   let r := aget (m_acts m) a in
@@ -97,6 +105,7 @@ Definition start_code (m : mst) (a : aref) : nat :=
   if negb (status_eqb (c_st d) Running && Nat.eqb (c_n d) (r_inv r)) then 1        (* (a) *)
   else if r_fly r || is_some (r_ret r) then 2                                       (* (b) own earlier attempt *)
   else if negb (peers_ok (m_acts m) a) then 3                                       (* (b) earlier action of the sequence *)
+  else if negb (encl_ok (m_img m) a) then 16                                        (* (a) its sequence *)
   else 0.
 Definition start_rec (r : arec) : arec :=
   {| r_inv := S (r_inv r); r_ret := None; r_fly := true; r_owed := false |}.
@@ -198,6 +207,7 @@ Definition mon_persist (c : case) : bool :=
    11 (c) release before the plan's terminal write 12 (c) released plan differs from the durable image (an object)
    13 (c) re-read differs from the released plan   14 End without Start
    15 (c) released plan differs from the durable image in the failure reason only
+   16 (a) Start of a sequence action whose sequence is not durably Running
    The diagnosis goes on after a violation (the state advances) and lists up to 6 of them: [c1; i1; c2; i2; ...]. *)
 Fixpoint mfold_diag (sh : shape) (m : mst) (tr : list event) (i : nat) (fuel : nat) : list nat :=
   match tr with
